@@ -28,6 +28,7 @@ type EvalCtx struct {
 	depth  int
 	outer  *State
 	prev   *State
+	prevVars map[string]SVal // iteration variables at the loop header (inside prev())
 	pre    *State
 	qdepth int
 	quiet  bool // do not report evaluation errors of use clauses (they are evaluated at several points)
@@ -691,6 +692,12 @@ func (ev *EvalCtx) evalCall(e *Expr) (SVal, error) {
 			return SVal{}, fmt.Errorf("prev() used outside a transition clause")
 		}
 		n := ev.with(ev.prev)
+		if ev.prevVars != nil {
+			// the iteration variables ($i, $pos, ...) denote their values at the loop header inside prev()
+			for k, v := range ev.prevVars {
+				n = n.bind(k, v)
+			}
+		}
 		return n.eval(e.Args[0])
 	case "outer":
 		if ev.outer == nil {
@@ -815,6 +822,35 @@ func (ev *EvalCtx) evalCall(e *Expr) (SVal, error) {
 	case "nopieces":
 		c.eng.sliceSort("Str")
 		return SVal{T: c.eng.zero("Sl.Str"), S: "Sl.Str"}, nil
+	case "mk":
+		// mk(pkg.Type, field values in declaration order): a struct value
+		if len(e.Args) < 1 {
+			return SVal{}, fmt.Errorf("mk needs a type")
+		}
+		te, terr := parseTypeString(e.Args[0].String())
+		if terr != nil {
+			return SVal{}, terr
+		}
+		srt, gt := c.eng.resolveType(ev.pkg, te)
+		dt, ok := c.eng.dtypes[srt]
+		if !ok || isSliceSort(srt) {
+			return SVal{}, fmt.Errorf("mk: %s is not a struct type", e.Args[0].String())
+		}
+		a, err := ev.evalArgs(e.Args[1:])
+		if err != nil {
+			return SVal{}, err
+		}
+		if len(a) != len(dt.Fields) {
+			return SVal{}, fmt.Errorf("mk: %s has %d fields", srt, len(dt.Fields))
+		}
+		var ts []string
+		for i, x := range a {
+			if x.S != dt.Fields[i].Sort {
+				return SVal{}, fmt.Errorf("mk: field %s has sort %s, got %s", dt.Fields[i].Name, dt.Fields[i].Sort, x.S)
+			}
+			ts = append(ts, x.T)
+		}
+		return SVal{T: app(dt.Ctor, ts...), S: srt, GT: gt}, nil
 	case "sprintf":
 		if len(e.Args) == 0 || e.Args[0].Op != "str" {
 			return SVal{}, fmt.Errorf("sprintf needs a literal format")
